@@ -174,13 +174,20 @@ def run(ctx, rep):
         if sends and gbc:
             # from the Ok edge of the builder result every path reaches the send (the len<CAP branch only sets the local flag)
             ok = False
+            cands = []
             for x in b.live_blocks():
                 tt = b.blocks[x]["t"]
                 if tt["k"] == "switch":
                     o = b.origin(tt["d"])
-                    if o[0] == "disc" and any(c_[3] == gbc[0] for c_ in origin_calls(o[1])):
-                        oks = [v[1] for v in tt["vals"] if v[0] == 0]
-                        ok = bool(oks) and all(b.all_paths_pass(k_, sends, to=[gbc[0]] + b.return_blocks()) for k_ in oks)
+                    if o[0] == "disc" and any(c_[3] == gbc[0] for c_ in origin_calls(o[1])) and b.dominates(x, sends[0]):
+                        cands.append(x)
+            # the test of the builder's result that decides between "send" and "leave" (later tests of the same
+            # discriminant belong to drop elaboration)
+            first = [x for x in cands if all(b.dominates(x, y) for y in cands)]
+            if first:
+                tt = b.blocks[first[0]]["t"]
+                oks = [v[1] for v in tt["vals"] if v[0] == 0]
+                ok = bool(oks) and all(b.all_paths_pass(k_, sends, to=[gbc[0]] + b.return_blocks()) for k_ in oks)
             rep.check(ok, "R18.2", "R18.2|reader|short_batch_sent", "a batch shorter than CAP is still sent (the stop is taken after the send)", rd,
                       "a path from an Ok batch to the next iteration/return skips the send: the packets before the cut are lost")
     else:
@@ -193,8 +200,11 @@ def run(ctx, rep):
         from ..thir import canon_guard
         ev.watch = lambda c: c.endswith("InputScanner::<R>::report")
         ev.watch_codes = True
+        # reporting helpers of the scanner (methods that only wrap `report`) are expanded in place
+        rp_ = [p_ for p_ in f.fns if p_.endswith("InputScanner::<R>::report")]
+        helpers = {c_ for c_ in (cg.callers(rp_[0]) if rp_ else ()) if c_ != lc and not c_.split("::")[-1].startswith("load_") and "{closure" not in c_}
         try:
-            recs = ev.collect_ifs(lc, [Sym("self")])
+            recs = [o for o in ev.collect_ifs(lc, [Sym("self")], follow=lambda c: c in helpers) if "ret" not in o or o.get("fn") == lc]
         finally:
             ev.watch = None
             ev.watch_codes = False
